@@ -394,6 +394,7 @@ type Exec struct {
 	writes []writeRec
 	mapOrderInsertion bool
 	noOrderLemma      bool
+	orderOnly         map[string]bool // when set: map orders are explored only inside these functions
 	logs   []Value
 
 	sched *scheduler
